@@ -5,6 +5,7 @@ import ast
 from typing import Any, Dict, List, Optional, Set, Tuple
 
 from ..core import AnalysisError, Report
+from ..pysubst import block_outcomes
 from ..pyfacts import Repo, calls, dotted, norm, param_defaults, param_names, walk_no_nested
 
 CLI = 'flipjump/flipjump_cli.py'
@@ -287,13 +288,29 @@ def rule_version_default(rep: Report, repo: Repo) -> None:
     rep.rule('C20.VERSION-DEFAULT', 'get_version: an explicit version is validated and used; none + an output file -> compressed (3); '
              'none otherwise -> normal (1); the API default is the compressed version', 2)
     gv = repo.func(CLI, 'get_version')
-    body = gv.body[1:] if isinstance(gv.body[0], ast.Expr) else gv.body
-    ok = len(body) == 3 and isinstance(body[0], ast.If) and norm(body[0].test) == 'version is not None' and \
-        norm(body[0].body[-1]) == 'return FJMVersion(version)' and isinstance(body[1], ast.If) and norm(body[1].test) == 'is_outfile_specified' and \
-        norm(body[1].body[0]) == 'return FJMVersion.CompressedVersion' and norm(body[2]) == 'return FJMVersion.NormalVersion'
-    valid = any(isinstance(n, ast.If) and 'version not in' in norm(n.test) and any(isinstance(c, ast.Call) and dotted(c.func) == 'error_func' for c in ast.walk(n))
-                for n in ast.walk(body[0])) if ok else False
-    rep.check(ok and valid, 'C20.VERSION-DEFAULT', 'get_version', f'decision table ok={ok}, explicit version validated={valid}', f'{CLI}:{gv.lineno}')
+    # the decision table by forward substitution (branch order / nesting / negation do not matter): per path, the conditions that
+    # hold decide the returned version
+    outs = block_outcomes(gv.body, {}, 'get_version')
+    bad = []
+    validated = False
+    for o in outs:
+        c = set(o.conds)
+        if 'version is not None' in c:
+            want = 'FJMVersion(version)'
+            if any(x.startswith('version not in ') for x in c):
+                validated = validated or any(e.startswith('error_func(') for e in o.effects)
+        elif 'version is None' in c and 'is_outfile_specified' in c:
+            want = 'FJMVersion.CompressedVersion'
+        elif 'version is None' in c and 'not is_outfile_specified' in c:
+            want = 'FJMVersion.NormalVersion'
+        else:
+            want = '?'
+        if o.result != ('return', want):
+            bad.append(f'{sorted(c)} -> {o.result}')
+    ok = not bad and len(outs) >= 4
+    valid = validated
+    rep.check(ok and valid, 'C20.VERSION-DEFAULT', 'get_version', f'decision table ok={ok}{" " + bad[0] if bad else ""}, explicit version validated={valid}',
+              f'{CLI}:{gv.lineno}')
     vals = {}
     for st in repo.cls('flipjump/fjm/fjm_consts.py', 'FJMVersion').body:
         if isinstance(st, ast.Assign):
